@@ -59,6 +59,17 @@ def ac_flatten(s, tags=("Sum", "Product")):
     return (t, *[ac_flatten(c, tags) for c in s[1:]])
 
 
+def denumpy(s):
+    """A numpy scalar constant prints like the Python number it equals and is read back as that."""
+    if not isinstance(s, tuple) or not s or not isinstance(s[0], str):
+        return s
+    if s[0] == "np":
+        return to_spec(s[2])
+    if s[0] in ("map", "dict"):
+        return (s[0], *[(k, denumpy(v)) for k, v in s[1:]])
+    return (s[0], *[denumpy(c) if isinstance(c, tuple) else c for c in s[1:]])
+
+
 def box_for(spec):
     import itertools
     names = [v for v in variables_of(spec) if v not in SPECIAL_NAMES]
@@ -151,7 +162,7 @@ def roundtrip(spec):
         h = f"long-lived printer / fresh parser raised {e!r}"
     if h:
         return "instance-history", h, text
-    if ac_flatten(bs) != ac_flatten(spec):
+    if ac_flatten(bs) != ac_flatten(denumpy(spec)):
         vd = None
         try:
             vd = values_differ(spec, bs)
@@ -181,7 +192,10 @@ class C06(Check):
             "leaf combination incl. negative / non-integer / boolean constants (depth2), every "
             "(parent, position, child) nesting (nest2), every three-level chain (nest3; quick: "
             "15 representative shapes, thorough: the whole fragment), every (grandparent, position) x binary "
-            "parent with BOTH operands composite over 6 (quick) / 15 (thorough) shapes. Each tree is printed, "
+            "parent with BOTH operands composite over 6 (quick) / 15 (thorough) shapes; hash-colliding and "
+            "typed twin constants in sibling subtrees; 21 names that begin with a keyword or literal "
+            "spelling / differ in case / carry digits and 7 numpy scalar constants in 16 contexts, "
+            "also as attribute, function and keyword names. Each tree is printed, "
             "parsed, compared after Sum/Product flattening with strict constant types, "
             "re-printed. Non-trivial = the printed text contains an operator or bracket, "
             "distinct = distinct printed texts.")
@@ -191,6 +205,8 @@ class C06(Check):
         "a StringifyMapper that lives as long as the worker process must print what str() prints, "
         "and a fresh Parser must read what the long-lived pymbolic.parse reads (instance history = "
         "the items this worker handled before)",
+        "a numpy scalar constant prints like the Python number it equals and is expected back as "
+        "that number",
         "value comparison (only used to classify a structural mismatch) runs on the box "
         "{-2, 1, 3, 1/2}^vars",
     ]
@@ -209,6 +225,7 @@ class C06(Check):
         fams.append(("hash-twins", lambda: (("t", s) for s in gen.twin_trees())))
         fams.append(("typed-twins", lambda: (("t", s) for s in gen.twin_trees(
             gen.TYPED_TWINS, V("x"), V("y")))))
+        fams.append(("names-and-numpy", self.gen_names))
         if tier == "quick":
             fams.append(("nest3", lambda: (("t", s) for _, s in
                                            gen.nest3(REDUCED14, REDUCED14, REDUCED14))))
@@ -216,6 +233,30 @@ class C06(Check):
             fams.append(("nest3", lambda: (("t", s) for _, s in
                                            gen.nest3(PRINTABLE, PRINTABLE, PRINTABLE))))
         return fams
+
+    # variable / attribute / function / keyword names that begin with a keyword or a literal
+    # spelling, differ in case only, carry digits or underscores; numpy scalar constants
+    NAMES = ("not_done", "or_mask", "and_", "if_", "else_x", "nota", "NaN", "nan", "inf", "Truex",
+             "True_", "False1", "e1", "E3", "j", "x_1", "_x", "aB", "Ab", "x1e3", "d_not")
+    NP = (("np", "float64", 1.5), ("np", "int64", 2), ("np", "float32", 0.5), ("np", "int8", -3),
+          ("np", "float64", -2.5), ("np", "bool", True), ("np", "float64", 1e20))
+
+    def gen_names(self):
+        x = V("x")
+        specials = [V(n) for n in self.NAMES] + list(self.NP)
+        for L in specials:
+            for t in (L, ("Sum", T(L, x)), ("Product", T(C(2), L)), ("Power", L, C(2)),
+                      ("Power", C(2), L), ("Quotient", x, L), ("Call", V("f"), T(L)),
+                      ("Subscript", V("arr"), L), ("Subscript", V("arr"), T(L, x)),
+                      ("CallWithKwargs", V("f"), T(L), ("map", ("k", L), ("a", x))),
+                      ("Comparison", L, ("str", "<"), x), ("If", L, x, L), ("LogicalNot", L),
+                      ("LogicalAnd", T(L, x)), ("BitwiseNot", L), ("tuple", L, x)):
+                yield ("t", t)
+        for n in self.NAMES:
+            yield ("t", ("Lookup", V("obj"), ("str", n)))
+            yield ("t", ("Call", V(n), T(x)))
+            yield ("t", ("CallWithKwargs", V("f"), T(), ("map", (n, x), ("k", C(1)))))
+            yield ("t", ("Sum", T(("Lookup", V(n), ("str", n)), V(n))))
 
     BUSHY_Q = ("Sum2", "Product2", "Quotient", "FloorDiv", "Power", "Call1")
     BUSHY_T = ("Sum2", "Product2", "Quotient", "FloorDiv", "Remainder", "Power", "LeftShift",
